@@ -661,6 +661,14 @@ def run_check(prop, tier, seed, replay):
                 for sc in shapes.generate(seed, 18 if tier == "quick" else 150):
                     f.write(json.dumps(sc) + "\n")
             script_files.append(("shapes", pth, 12))
+        # 3b'. long repetitive histories on three objects (tools/longhist.py)
+        if "core" in P["fams"]:
+            import longhist
+            pth = os.path.join(wd, "longhist.ndjson")
+            with open(pth, "w") as f:
+                for sc in longhist.generate():
+                    f.write(json.dumps(sc) + "\n")
+            script_files.append(("longhist", pth, 3))
         # 3c. systematic scenario templates for the consuming APIs (tools/scenarios.py)
         if "consume" in P["fams"]:
             import scenarios
